@@ -101,3 +101,36 @@ Theorem C14_unbracketed_or_leaks : exists env,
   holds env (join_and [[IGroup [IAtom 0%Z; IAnd; IAtom 1%Z]]; or_join [IGroup [IAtom 104%Z]] 2]) = true /\ env 0%Z = false.
 Proof. exact unbracketed_or_leaks. Qed.
 Print Assumptions C14_unbracketed_or_leaks.
+
+(** ---- billing read paths (GET /billing, /billing_limits, /api/v1alpha/billing_projects[/{billing_project}]) ----
+    The builders are generated from _query_billing (front_end.py) and query_billing_projects_with/without_cost (utils.py);
+    their flags are the presence of the optional parameters.  Whenever the handler passes a user — it does for every caller that is
+    neither a developer nor (REST) the auth service: checked on the real handlers by the run — the clause holds only for rows of that
+    user / projects whose member list contains that user, WHATEVER the other optional filters (end date, billing project) are. *)
+Theorem C14_billing_scoped : forall has_end env,
+  holds env (join_and (C14.Lists.billing_init has_end true)) = true -> env 30%Z = true.
+Proof. exact billing_scoped. Qed.
+Print Assumptions C14_billing_scoped.
+
+Theorem C14_billing_projects_with_cost_scoped : forall has_bp env,
+  holds env (join_and (C14.Lists.bp_with_cost_init true has_bp)) = true ->
+  env 31%Z = true /\ (has_bp = true -> env 32%Z = true).
+Proof. exact bp_with_cost_scoped. Qed.
+Print Assumptions C14_billing_projects_with_cost_scoped.
+
+Theorem C14_billing_projects_without_cost_scoped : forall has_bp env,
+  holds env (join_and (C14.Lists.bp_without_cost_init true has_bp)) = true ->
+  env 31%Z = true /\ (has_bp = true -> env 32%Z = true).
+Proof. exact bp_without_cost_scoped. Qed.
+Print Assumptions C14_billing_projects_without_cost_scoped.
+
+Theorem C14_billing_project_of_url_scoped : forall has_user env,
+  holds env (join_and (C14.Lists.bp_with_cost_init has_user true)) = true -> env 32%Z = true.
+Proof. exact bp_with_cost_project_scoped. Qed.
+Print Assumptions C14_billing_project_of_url_scoped.
+
+(** a user conjunct that is appended only when no end date is given does not restrict the rows *)
+Theorem C14_user_filter_in_elif_leaks : exists env,
+  holds env (join_and ([[IAtom 121%Z]; [IAtom 122%Z]] ++ (if true then [[IAtom 123%Z]] else [[IAtom 30%Z]]))) = true /\ env 30%Z = false.
+Proof. exact user_filter_in_elif_leaks. Qed.
+Print Assumptions C14_user_filter_in_elif_leaks.
